@@ -228,7 +228,7 @@ SPEC = {
     'id': 'C17',
     'rule': ('trees: 1..4 trees per list, any branching (1..3 children), exactly-zero couplings (also on every child of an inner node), leaves at different depths (ragged), leaf exactly on the terminal, shared '
              'operator ids, start sites 0..L-1, L 1..7; automata: 2..6 states, self loops, parallel edges, dead states, identical terminals, edges '
-             'with site-dependent active() and opics() callables, a planted path of the requested length (path-free automata are filtered by the '
+             'with site-dependent active() and opics() callables (total ones, and ones defined on the activity domain only), a planted path of the requested length (path-free automata are filtered by the '
              'own path count and counted); dense meanings of chains, trees and graphs (both directions) against the polynomial under random '
              'operator maps. Exact polynomial equality (dyadic coefficients). distinct = (family, L, size, shape labels).'),
     'deciding': ['trees.polynomial==padded-sum', 'trees.graph-is_consistent', 'trees.graph-length', 'automaton.polynomial==path-sum',
